@@ -19,7 +19,8 @@ PROPERTY = 'C15'
 LEVEL = 'exploration'
 RULE = ('Hypothesis RuleBasedStateMachine, one real server subprocess per generated sequence (quick: 12 steps, thorough: 40); '
         'request arguments: small programs with cursors on names/attributes/imports, C04 three-module project files, texts that '
-        'do not parse, payloads from 0 bytes to 4 MiB (comment-only sources, eval strings); fault rules injected at any index. '
+        'do not parse, payloads from 0 bytes to 4 MiB (comment-only sources, eval strings); fault rules injected at any index; plus fixed '
+        'sequences around a request that keeps the server busy for 6 s (thorough: 12 s, and a real 120 000-line source). '
         'Oracle: in-process mirror on an identical Project + server-side message for failures + liveness of the child after '
         'each fault. Non-trivial sequence: >= 1 fault followed by >= 1 successful request, or a payload >= 64 KiB; distinct by '
         'operation sequence.')
@@ -300,8 +301,50 @@ def w_machine(job):
     return sh.result()
 
 
+def w_slow(job):
+    """requests that keep the server busy for a while (a slow evaluation, a real source of several MiB) are answered like any
+    other, and the requests after them still pair with their replies"""
+    seconds, big_lines = job
+    sh = Shard()
+    found = {}
+    Machine = make_machine(sh, found, 50)
+    m = Machine()
+    try:
+        try:
+            m.configure_first()
+            m.eval_token()
+            m.both('eval', 'import time\ntime.sleep(%s)\nreturn "slow"' % seconds)
+            m.eval_token()
+            m.both('assist', SNIPPETS[0][0], SNIPPETS[0][1], os.path.join(m.root, 'buffer.py'))
+            m.eval_raises('boom')
+            m.eval_token()
+            if big_lines:
+                src = ''.join('v%d = [%d, "text", None]\n' % (i, i) for i in range(big_lines))
+                m.big = True
+                m.both('lint', src, os.path.join(m.root, 'big.py'))
+                m.eval_token()
+                m.both('assist', src + 'v1', (big_lines + 1, 2), os.path.join(m.root, 'big.py'))
+                m.eval_token()
+            m.faults += 1
+            m.ok_after_fault += 1
+            sh.count('slow-request-sequences')
+        except AssertionError:
+            sig, ops, detail = found['f']
+            sh.violation(sig + ':after-slow-request', {'ops': ops, 'slow': [seconds, big_lines]}, detail)
+    finally:
+        m.teardown()
+    return sh.result()
+
+
+def w_dispatch(job):
+    return w_slow(job[1:]) if job[0] == 'slow' else w_machine(job[1:])
+
+
 def run(run):
-    run.pmap(w_machine, [(i, core.derive_seed(run.seed, 'c15', i), run.pick(25, 150), run.pick(12, 40)) for i in range(run.pick(8, 16))], procs=run.pick(8, 16))
+    slow = [(6, 0)] if run.quick else [(6, 0), (12, 0), (1, 120000)]
+    jobs = [('slow',) + j for j in slow]
+    jobs += [('machine', i, core.derive_seed(run.seed, 'c15', i), run.pick(25, 150), run.pick(12, 40)) for i in range(run.pick(8, 16))]
+    run.pmap(w_dispatch, jobs, procs=run.pick(9, 16))
 
 
 def replay(case):
@@ -309,6 +352,9 @@ def replay(case):
     sh = Shard()
     found = {}
     Machine = make_machine(sh, found, 50)
+    if case.get('slow'):
+        r = w_slow(tuple(case['slow']))
+        return [{'signature': v['signature'], 'case': case, 'detail': v['detail']} for v in r['violations']]
     m = Machine()
     out = []
     try:
